@@ -1,5 +1,79 @@
 (* C11/Props.v — property-level theorems only. Tags are read by bin/check. *)
 From Coq Require Import List NArith.
-From BLB Require Import Meta.AMap Meta.Curator.
+From BLB Require Import Gen.Consts Meta.AMap Meta.Curator Meta.CuratorFacts Meta.CuratorInv C11.Proofs.
 Import ListNotations.
 Open Scope N_scope.
+
+(* [PARTIAL] structural part of the invariant, for ALL command sequences: initial state *)
+Theorem meta_inv_init_partial : parts_ok d_init /\ parts_wf d_init.
+Proof. split; [exact parts_ok_init|constructor]. Qed.
+Print Assumptions meta_inv_init_partial.
+
+(* [PARTIAL] structural part of the invariant is preserved by every Apply: every blob lives in an existing partition, partitions never disappear, NextBlobKey stays a uint32 *)
+Theorem meta_inv_step_partial :
+  forall d i c d' r, dapply d i c = Some (d', r) ->
+    parts_ok d /\ parts_wf d -> (parts_ok d' /\ parts_wf d') /\ step_shape d d'.
+Proof.
+  intros d i c d' r H [P W]. pose proof (dapply_shape _ _ _ _ _ H) as S.
+  repeat split; try exact (proj1 S); try exact (proj2 S).
+  - eapply step_shape_parts_ok; eauto.
+  - eapply dapply_wf; eauto.
+Qed.
+Print Assumptions meta_inv_step_partial.
+
+(* [PARTIAL] hence it holds in every reachable state; clauses a for NextBlobKey above every key, c, g and h of DESIGN C11 are not proved, they are checked on the real code by the monitor only *)
+Theorem meta_inv_reachable_partial :
+  forall cs s r, apply_all s_init cs = Some (s, r) -> parts_ok (fst s) /\ parts_wf (fst s).
+Proof. exact reachable_ok. Qed.
+Print Assumptions meta_inv_reachable_partial.
+
+(* [FULL] clause f: while read-only mode is set, a command other than SetReadOnlyMode changes nothing but txn_index *)
+Theorem readonly_freezes_metadata :
+  forall d i c d' r,
+    dapply d i c = Some (d', r) -> d_ro d = true -> (forall b, c <> CSetRO b) ->
+    d' = d \/ d' = set_index d i.
+Proof. exact readonly_freezes_lemma. Qed.
+Print Assumptions readonly_freezes_metadata.
+
+(* [FULL] clause e with the F18 case carved out: a blob disappears from the database only through a FinishDelete that names it, and if that command carries a cutoff (repaired code; cutoff 0 = the current code and old log entries) the blob is, in the state the command is applied to, marked deleted or expired with respect to the cutoff *)
+Theorem live_blob_never_removed :
+  forall d i c d' r id b,
+    dapply d i c = Some (d', r) -> aget id (d_blobs d) = Some b -> aget id (d_blobs d') = None ->
+    exists cutoff ids, c = CFinishDelete cutoff ids /\ In id ids /\ (cutoff <> 0 -> gc_eligible b cutoff = true).
+Proof. exact blob_removed_lemma. Qed.
+Print Assumptions live_blob_never_removed.
+
+(* [REFUTED] without the cutoff: create, delete, undelete, FinishDelete from the stale scan removes a blob that is neither marked deleted nor has an expiry, finding F18 *)
+Theorem live_blob_never_removed_refuted :
+  exists d d' r b,
+    dapply_all d_init (firstn 5 f18_cmds) = Some (d, r) /\
+    aget 4294967297 (d_blobs d) = Some b /\ b_deleted b = 0 /\ b_expires b = 0 /\
+    dapply d 6 (CFinishDelete 0 [4294967297]) = Some (d', [1; e_NoError]) /\
+    aget 4294967297 (d_blobs d') = None.
+Proof. exact live_blob_removed_witness. Qed.
+Print Assumptions live_blob_never_removed_refuted.
+
+(* [FULL] clause d for ChangeTract: a successful ChangeTract requires NewVersion = stored version + 1, stores it as uint32 in exactly the named tract, and leaves every other tract and blob alone *)
+Theorem changetract_raises_version_by_one :
+  forall d bid idx ver hosts d',
+    do_change d bid idx ver hosts = Some (d', r_err e_NoError) ->
+    exists b b' t t',
+      live_blob d bid = Some b /\ aget bid (d_blobs d') = Some b' /\
+      nth_error (b_tracts b) (N.to_nat idx) = Some t /\ nth_error (b_tracts b') (N.to_nat idx) = Some t' /\
+      ver = t_version t + 1 /\ t_version t' = u32 (t_version t + 1) /\
+      (forall m, m <> N.to_nat idx -> nth_error (b_tracts b') m = nth_error (b_tracts b) m) /\
+      (forall id2, id2 <> bid -> aget id2 (d_blobs d') = aget id2 (d_blobs d)).
+Proof. exact change_version_lemma. Qed.
+Print Assumptions changetract_raises_version_by_one.
+
+(* [REFUTED] clause d for CommitRSChunk: a commit built from a scan made at version 1 and applied at version 3 succeeds and lowers the version to 2, finding F6, owned by C14 *)
+Theorem commitrs_version_plus_one_refuted :
+  exists d d' b b' t t',
+    dapply_all d_init (firstn 7 f6_cmds) = Some (d, [[2; 1]; [3; 0]; [5; 4294967297; 0]; [6; 0; 1]; [1; 0]; [1; 0]; [9; 0; 2147483649; 1]]) /\
+    dapply d 8 (CCommitRS (2147483649, 1) c_ClassRS63 [1; 2; 3; 4; 5; 6; 7; 8; 9]
+                 [[mkET 4294967297 0 0 100 2]; []; []; []; []; []]) = Some (d', [1; e_NoError]) /\
+    aget 4294967297 (d_blobs d) = Some b /\ aget 4294967297 (d_blobs d') = Some b' /\
+    nth_error (b_tracts b) 0 = Some t /\ nth_error (b_tracts b') 0 = Some t' /\
+    t_version t = 3 /\ t_version t' = 2.
+Proof. exact commit_lowers_version_witness. Qed.
+Print Assumptions commitrs_version_plus_one_refuted.
